@@ -199,8 +199,10 @@ CLAIMS = {
              "no zero divisor, shift constants 1..63). All int operands of any size at once.",
         note="Trusted: dv C front end, dv/pyobj.py (PyLong representation contract, C-API stubs, delegation to CPython's slots assumed "
              "correct), z3; inside the function marked no_sanitize(\"shift\") shifts follow x86-64/AArch64 semantics; IEEE division and "
-             "int->double conversion are uninterpreted functions shared with the spec. NOT covered: And/Or/Xor (symbolic-symbolic bit "
-             "operations), Multiply, Eq/Ne (PyLongCompare), PyFloatBinop, the non-int operand paths, Optimize.py's selection logic.",
+             "int->double conversion are uninterpreted functions shared with the spec. Also under contract for this property: "
+             "__Pyx_PyLong_{Eq,Ne}ObjC (contracts/compare.py) and the float-constant binops __Pyx_PyFloat_* (contracts/pyfloat_binop.py). "
+             "NOT covered: And/Or/Xor (symbolic-symbolic bit operations), Multiply, the non-int operand paths of PyLongBinop, "
+             "Optimize.py's selection logic.",
         ref="4 C02"),
     "C05": dict(
         text="Proof on the abstract CPython object model, for every C integer type of the matrix, that __Pyx_PyLong_As_<T> (compact, "
@@ -216,10 +218,17 @@ CLAIMS = {
         text="Proof in the theory of IEEE-754 floats (z3 Float64/Float32, fmod as an uninterpreted function constrained by the C11 "
              "clauses and shared by subject and spec) that the ModFloat helper returns, for all finite operands with a non-zero "
              "divisor, a value bit-identical (up to NaN payload) to CPython's float_rem - including the sign of a zero remainder. "
-             "Kernel: the float modulo helper only.",
+             "Proof on the abstract object model that __Pyx_PyFloat_{Add,Subtract,TrueDivide}{ObjC,CObj} and {Eq,Ne}ObjC (x op 1.5, "
+             "1.5 op x; taken from the generated module) apply the IEEE operation to the right operands in the right order for exact "
+             "floats and for ints whose conversion to double is exact (the fast path is taken for ints only below 2**53, with the sign "
+             "re-applied), raise ZeroDivisionError for `c / 0`, and delegate everything else to CPython's own PyNumber / comparison "
+             "functions. Kernel: float modulo and float-constant binops.",
         note="Trusted: dv C front end, z3's FP theory, the C11 contract of fmod/copysign, the float_rem transcription (validated "
-             "against float.__mod__ each run). NOT covered: PyFloatBinop (object float arithmetic with constants), floor division of "
-             "doubles, float parsing (pyunicode_as_double: a string grammar, no contract within reach).",
+             "against float.__mod__ each run); for PyFloatBinop the IEEE operations and the int -> double conversion are uninterpreted "
+             "functions shared by subject and specification (ASSUMED per converted term: not NaN, sign, zero only for 0, below 2**53 "
+             "exactly when the magnitude is), PyLong_AsDouble / tp_richcompare are CPython's own. NOT covered: the Remainder variant of "
+             "PyFloatBinop, floor division of doubles, int()/round() of doubles, float parsing (pyunicode_as_double: a string grammar, "
+             "no contract within reach - seed C06-b is missed).",
         ref="4 C06"),
     "C07": dict(
         text="Proof on the abstract CPython object model that __Pyx__PyNumber_PowerOf2 (the `2 ** n` fast path, taken from the C the "
